@@ -71,7 +71,7 @@ func ruleR07f(c *Ctx) {
 		}
 		return true
 	})
-	c.floor("R07f", "scope-entry marks in templateChecker.recurse", 3, len(marks))
+	c.floor("R07f", "scope-entry marks in templateChecker.recurse", 1, len(marks))
 	// every other read of a marked field
 	var stack []ast.Node
 	reads := 0
@@ -118,7 +118,69 @@ func ruleR07f(c *Ctx) {
 			"tc."+fv.Name()+" is read whole, not from the mark "+marks[fv].Name()+" taken at scope entry: what enclosing scopes recorded (a use of an outer variable of the same name) is counted for this scope")
 		return true
 	})
-	c.floor("R07f", "reads of the marked stacks", 6, reads)
+	c.floor("R07f", "reads of the marked stacks", 2, reads)
+	// helpers called once the children have been checked read the stacks whole on the scope's behalf:
+	// the same discipline applies to them (they have no mark, so any read other than len() is whole)
+	after := false
+	byFunc := map[*types.Func]*ast.FuncDecl{}
+	for _, d := range c.allFuncDecls("parsepasses") {
+		if fn, ok := info.Defs[d.Name].(*types.Func); ok {
+			byFunc[fn] = d
+		}
+	}
+	self, _ := info.Defs[fd.Name].(*types.Func)
+	for _, st := range fd.Body.List {
+		if rs, ok := st.(*ast.RangeStmt); ok && !after {
+			if call, ok := ast.Unparen(rs.X).(*ast.CallExpr); ok {
+				if se, ok := call.Fun.(*ast.SelectorExpr); ok && se.Sel.Name == "Children" {
+					after = true
+					continue
+				}
+			}
+		}
+		if !after {
+			continue
+		}
+		ast.Inspect(st, func(x ast.Node) bool {
+			call, ok := x.(*ast.CallExpr)
+			if !ok {
+				return true
+			}
+			cal := calleeFunc(call, info)
+			hd := byFunc[cal]
+			if hd == nil || cal == self || hd.Recv == nil {
+				return true
+			}
+			var whole []string
+			var hstack []ast.Node
+			ast.Inspect(hd.Body, func(y ast.Node) bool {
+				if y == nil {
+					hstack = hstack[:len(hstack)-1]
+					return true
+				}
+				hstack = append(hstack, y)
+				e, ok := y.(ast.Expr)
+				if !ok {
+					return true
+				}
+				fv := fieldOf(e, info)
+				if fv == nil || marks[fv] == nil || len(hstack) < 2 {
+					return true
+				}
+				if pc, ok := hstack[len(hstack)-2].(*ast.CallExpr); ok {
+					if fn, ok := pc.Fun.(*ast.Ident); ok && fn.Name == "len" {
+						return true
+					}
+				}
+				whole = append(whole, fv.Name())
+				return true
+			})
+			key := "parsepasses.templateChecker.recurse calls " + cal.Name()
+			c.check(len(whole) == 0, "R07f", key, call.Pos(), "the helper does not read the checker's stacks",
+				"while a scope is being closed, "+cal.Name()+" reads tc."+joinStrings(whole)+" whole, not from the mark taken at scope entry: what enclosing scopes recorded is counted for this scope")
+			return true
+		})
+	}
 }
 
 // R07g: under data="all" the names a call is taken to pass are drawn from the caller's declared params
@@ -207,4 +269,154 @@ func conjuncts(e ast.Expr) []ast.Expr {
 		return append(conjuncts(be.X), conjuncts(be.Y)...)
 	}
 	return []ast.Expr{e}
+}
+
+// R07k: a reference counts for the binding it refers to. The list CheckDataRefs consults for unused
+// params (U) receives a data reference's key only after the checker has looked the key up among the {let}
+// and loop variables in scope (the fields L its Let/For arms append to) and returned if one binds it.
+func ruleR07k(c *Ctx) {
+	p := c.pkg("parsepasses")
+	entry := c.mustFunc("parsepasses", "CheckDataRefs")
+	ck := c.mustFunc("parsepasses", "templateChecker.checkTemplate")
+	if p == nil || entry == nil || ck == nil {
+		return
+	}
+	info := p.TypesInfo
+	// U: checker fields read in CheckDataRefs
+	U := map[*types.Var]bool{}
+	ast.Inspect(entry.Body, func(x ast.Node) bool {
+		if se, ok := x.(*ast.SelectorExpr); ok {
+			if fv := fieldOf(se, info); fv != nil {
+				if _, ok := fv.Type().Underlying().(*types.Slice); ok && fv.Name() != "params" {
+					U[fv] = true
+				}
+			}
+		}
+		return true
+	})
+	// L: fields the Let/For arms append to
+	L := map[*types.Var]bool{}
+	ast.Inspect(ck.Body, func(x ast.Node) bool {
+		as, ok := x.(*ast.AssignStmt)
+		if !ok || len(as.Lhs) != 1 || len(as.Rhs) != 1 {
+			return true
+		}
+		call, ok := as.Rhs[0].(*ast.CallExpr)
+		if !ok {
+			return true
+		}
+		if id, ok := call.Fun.(*ast.Ident); !ok || id.Name != "append" {
+			return true
+		}
+		if fv := fieldOf(as.Lhs[0], info); fv != nil && !U[fv] {
+			L[fv] = true
+		}
+		return true
+	})
+	if len(U) == 0 || len(L) == 0 {
+		c.fatalf("anchor: the checker's used-params list (read by CheckDataRefs) or its local-binder lists not identified")
+		return
+	}
+	readsL := func(fd *ast.FuncDecl) bool {
+		found := false
+		ast.Inspect(fd.Body, func(x ast.Node) bool {
+			if se, ok := x.(*ast.SelectorExpr); ok {
+				if fv := fieldOf(se, info); fv != nil && L[fv] {
+					found = true
+				}
+			}
+			return true
+		})
+		return found
+	}
+	byFunc := map[*types.Func]*ast.FuncDecl{}
+	for _, fd := range c.allFuncDecls("parsepasses") {
+		if fn, ok := info.Defs[fd.Name].(*types.Func); ok {
+			byFunc[fn] = fd
+		}
+	}
+	n := 0
+	for _, fd := range c.allFuncDecls("parsepasses") {
+		// string parameters of the function
+		params := map[types.Object]bool{}
+		for _, fl := range fd.Type.Params.List {
+			for _, nm := range fl.Names {
+				if o := info.Defs[nm]; o != nil {
+					if b, ok := o.Type().Underlying().(*types.Basic); ok && b.Info()&types.IsString != 0 {
+						params[o] = true
+					}
+				}
+			}
+		}
+		if len(params) == 0 {
+			continue
+		}
+		for si, st := range fd.Body.List {
+			as, ok := st.(*ast.AssignStmt)
+			if !ok || len(as.Lhs) != 1 || len(as.Rhs) != 1 {
+				continue
+			}
+			fv := fieldOf(as.Lhs[0], info)
+			call, isCall := as.Rhs[0].(*ast.CallExpr)
+			if fv == nil || !U[fv] || !isCall || len(call.Args) != 2 {
+				continue
+			}
+			kid, ok := ast.Unparen(call.Args[1]).(*ast.Ident)
+			if !ok || !params[info.Uses[kid]] {
+				continue
+			}
+			n++
+			// an earlier statement of the body: if <looks key up in L> { ... return }
+			guarded := false
+			for _, prev := range fd.Body.List[:si] {
+				ifs, ok := prev.(*ast.IfStmt)
+				if !ok || len(ifs.Body.List) == 0 {
+					continue
+				}
+				if _, ret := ifs.Body.List[len(ifs.Body.List)-1].(*ast.ReturnStmt); !ret {
+					continue
+				}
+				looks := false
+				check := func(n ast.Node) {
+					if n == nil {
+						return
+					}
+					ast.Inspect(n, func(y ast.Node) bool {
+						switch e := y.(type) {
+						case *ast.CallExpr:
+							mentionsKey := false
+							for _, a := range e.Args {
+								if id, ok := ast.Unparen(a).(*ast.Ident); ok && info.Uses[id] == info.Uses[kid] {
+									mentionsKey = true
+								}
+							}
+							if !mentionsKey {
+								return true
+							}
+							if callee := byFunc[calleeFunc(e, info)]; callee != nil && readsL(callee) {
+								looks = true
+							}
+							for _, a := range e.Args {
+								if f := fieldOf(a, info); f != nil && L[f] {
+									looks = true
+								}
+							}
+						}
+						return true
+					})
+				}
+				if ifs.Init != nil {
+					check(ifs.Init)
+				}
+				check(ifs.Cond)
+				if looks {
+					guarded = true
+				}
+			}
+			c.check(guarded, "R07k", c.declKey("parsepasses", fd)+" records-param-use", as.Pos(),
+				"the key is recorded as a param use only after the {let} and loop variables in scope were searched for it",
+				"every reference is recorded as a use of the param of that name, whether or not a {let} or loop variable binds the name there: a shadowing variable makes an unused param look used, and its going out of scope takes the param's real uses with it")
+		}
+	}
+	c.floor("R07k", "places where a reference's key is recorded as a param use", 1, n)
 }
